@@ -106,6 +106,18 @@ CLAIMS = {
               "(substring semantics) are not exercised here."),
         technique="Lean 4 proof (list prefix / suffix lemmas on component paths) + exhaustive relocation x spelling x command matrix",
         ref="DESIGN.md §3 C09"),
+    "C02": dict(
+        text=("Kernel-checked theorems over literal-site programs: in each language a literal is reported iff its value is not allowed "
+              "and its position is not a documented exempt one (py/ts/rs_flag_eq_spec, for literals whose text is read as their "
+              "value); allowing a value removes exactly the reports of that value, as a list law for every program (allowed_delta); "
+              "raising max_small_integer never adds a report; unparsable literals are skipped; hexadecimal text is read as its base-16 "
+              "value whatever its digits. Reading of literal text (Python's int(_, 0) / float re-stated) and the decision lists are "
+              "executed by the Lean driver on every generated site and compared with the real CLI per line, including the delta law "
+              "on the tool itself. Four genuine defects repaired (fix: 570cd14, 41e227d, aa276d1); F02e (legacy octal) recorded."),
+        note=("CPython's literal evaluation and the tree-sitter grammars are trusted; suffix stripping and float reading are validated "
+              "by sampling and decided examples, not proved for all texts; definition-file heuristics are outside the family."),
+        technique="Lean 4 proof (decision-list case analysis, list filter laws, digit-string lemmas) + per-site differential check",
+        ref="DESIGN.md §3 C02"),
 }
 ALL = [f"C{n:02d}" for n in range(1, 21)]
 NOT_YET = "machinery for this property is not built yet in this revision of /verif (planned, see DESIGN.md §3); not claimed"
